@@ -55,7 +55,7 @@ def run(ctx, rep):
     ret = canon(hb.pexpr_local(0), 0, 2)
     ok = ret == 'phi{(hash::calculate_32(messages_key) % Topic::get_partitions_count(self)) | Topic::get_partitions_count(self)}'
     rep.ob('R17.b', H, 'result form', ok, None, 'returns %s' % ret if ok else 'the result `%s` is not (hash(key) mod n | n)' % ret)
-    check_comparisons(ctx, rep, 'R17.b', {H: ['re:^\\(0 == phi\\{\\(hash::calculate_32\\(messages_key\\) % Topic::get_partitions_count\\(self\\)\\) \\| Topic::get_partitions_count\\(self\\)\\}\\)$']})   # 0 is replaced by n
+    check_comparisons(ctx, rep, 'R17.b', {H: ['((hash::calculate_32(messages_key) % Topic::get_partitions_count(self)) == 0)']})   # 0 is replaced by n
     # the replacement value n is stored on the ==0 edge
     repl = False
     for blk in sorted(hb.reach):
@@ -83,7 +83,7 @@ def run(ctx, rep):
     nb = ctx.fn_body(N)
     ret = canon(nb.pexpr_local(0), 0, 2)
     rep.ob('R17.c', N, 'result form', ret == 'phi{1 | Atomic::fetch_add(self.current_partition_id, 1, Ordering::SeqCst{})}', None, 'returns ' + ret)
-    check_comparisons(ctx, rep, 'R17.c', {N: ['(HashMap::len(self.partitions) < phi{1 | Atomic::fetch_add(self.current_partition_id, 1, Ordering::SeqCst{})})']})
+    check_comparisons(ctx, rep, 'R17.c', {N: ['(HashMap::len(self.partitions) < Atomic::fetch_add(self.current_partition_id, 1, Ordering::SeqCst{}))']})
     forms.check_call_args(ctx, rep, 'R17.c', {N: {'Atomic::swap': ['(1 + 1), Ordering::SeqCst{}'],
                                                   'Atomic::fetch_add': ['1, Ordering::SeqCst{}']}})
 
